@@ -323,7 +323,8 @@ class Ctx:
             "property_id": self.pid,
             "tier": self.tier,
             "seed": self.seed,
-            "level": "proof",
+            # a check whose Lean part is not built yet has no proof obligations: it reports what it is, an exploration
+            "level": "proof" if obligations > 0 else "exploration",
             "coverage": cov,
             "assumptions": self.assumptions if hasattr(self, "assumptions") else [],
             "wall_s": round(time.time() - self.t0, 2),
@@ -364,6 +365,11 @@ def validate_evidence(ev):
             probs.append("trusted_base")
     if "samples" in c and (not isinstance(c["samples"], list) or not c["samples"]):
         probs.append("samples")
+    if "exhaustive" in c and not isinstance(c["exhaustive"], bool):
+        probs.append("exhaustive must be a boolean")
+    for k in ("evaluations", "distinct_nontrivial", "obligations", "discharged", "states", "transitions"):
+        if k in c and not (isinstance(c[k], int) and c[k] >= 0):
+            probs.append(k + " must be a non-negative integer")
     return probs
 
 
